@@ -290,8 +290,8 @@ def compare(w, api, other, label):
         # pre-flight rejection: an existing output file stays untouched (and none is created)
         if other["bytes"] != pre or other.get("opened_w"):
             out.append(_v("target_touched_on_preflight_error", f"{label}: output {'changed' if pre else 'created'} although the conversion was rejected pre-flight ({et})", w, f"{label}/{et}"))
-    if other.get("handles"):
-        out.append(_v("handle_leak", f"{label}: {other['handles']} handle(s) open at exit", w, label))
+    # (open handles are not judged here: the process exits, and in-process the traceback of a failed -m run keeps
+    # the suspended load_many generator alive; closing of files is C07's and C08's subject)
     return out
 
 
